@@ -222,3 +222,14 @@ for FullSync<'static, ItemType, BUFFER_SIZE, MAX_STREAMS> {
         self.streams_manager.name()
     }
 }
+
+/// verification hooks: gives the external harness access to the components (to name their shared cells)
+#[cfg(feature = "verif")]
+impl<'a, ItemType:          'a + Send + Sync + Debug + Default,
+         const BUFFER_SIZE: usize,
+         const MAX_STREAMS: usize>
+FullSync<'a, ItemType, BUFFER_SIZE, MAX_STREAMS> {
+    pub fn verif_parts(&self) -> (&StreamsManagerBase<MAX_STREAMS>, &FullSyncMove<ItemType, BUFFER_SIZE>) {
+        (&self.streams_manager, &self.container)
+    }
+}
